@@ -19,9 +19,10 @@ pub mod c12;
 pub mod c16;
 pub mod c17;
 pub mod c18;
+pub mod c20;
 
 pub fn all() -> Vec<Box<dyn Check>> {
-    vec![Box::new(c03::C03), Box::new(c04::C04), Box::new(c05::C05), Box::new(c06::C06), Box::new(c09::C09), Box::new(c10::C10), Box::new(c11::C11), Box::new(c12::C12), Box::new(c16::C16), Box::new(c17::C17), Box::new(c18::C18)]
+    vec![Box::new(c03::C03), Box::new(c04::C04), Box::new(c05::C05), Box::new(c06::C06), Box::new(c09::C09), Box::new(c10::C10), Box::new(c11::C11), Box::new(c12::C12), Box::new(c16::C16), Box::new(c17::C17), Box::new(c18::C18), Box::new(c20::C20)]
 }
 
 pub fn by_id(id: &str) -> Option<Box<dyn Check>> {
